@@ -780,6 +780,15 @@ func (se *specEnv) evalCall(n *ast.CallExpr) Val {
 			}
 		}
 		if rc := se.f.rootCtr(); rc != nil {
+			for _, g := range rc.GhostCalls {
+				if g == id.Name {
+					n := "G_" + g
+					if _, ok := e.hsort[n]; !ok {
+						panic("ghost set " + g + " is never written")
+					}
+					return boolVal(fmt.Sprintf("(select %s %s)", e.heapByName(se.st, n), arg(0).term))
+				}
+			}
 			for _, g := range rc.Callbacks {
 				if g == id.Name {
 					n := "G_" + g
